@@ -8,10 +8,11 @@ section 3, C14.
 import ast
 
 from ..core import Rule
+from ..contract import describe_alt
 from ..model import AnalysisError, dotted, unparse, short
 from ..cfg import cfg_of
 from ..terms import fn_terms, walk, show
-from .c08 import find_guard, raising_ifs
+from .c08 import guard_contract, raising_ifs
 from .c04 import _check_iv
 
 EXPLANATION = ("Use-def terms of AESxCBC.Encrypt / Decrypt are compared position by position: Encrypt returns iv || "
@@ -135,16 +136,16 @@ def check(repo):
                              ("AESxCBC.Encrypt", "message", "message_length"), ("AESxCBC.Encrypt", "key", "key_length"),
                              ("AESxCBC.Decrypt", "cipher_text", "cipher_length"), ("AESxCBC.Decrypt", "key", "key_length")):
         fi = repo.func(AES, qual)
-        g = find_guard(fi, subj, decl)
-        if r4.require(g is not None, fi, "guard %s/%s" % (subj, decl), "%s no longer refuses a %s violating %s with ValueError" % (qual, subj, decl)):
-            if not qual.endswith("__init__"):
-                cfg = cfg_of(fi.node)
-                gn = cfg.nodes_of(g)[0]
-                work = [n.id for n in cfg.nodes if n.kind == "stmt" and isinstance(n.stmt, ast.Assign)]
-                r4.require(all(cfg.dominates(gn, w) for w in work), fi, "guard %s precedes the work" % subj, "%s: the %s check no longer precedes the cipher operations" % (qual, subj), g)
-            txt = unparse(g.test)
-            if decl in ("message_length", "cipher_length"):
-                r4.require("LENGTH_UNLIMITED" in txt, fi, "guard %s skipped only when unlimited" % subj, "%s: the %s check lost its LENGTH_UNLIMITED escape (every call would be refused) or gained another" % (qual, subj), g)
+        refused, bad, F, what = guard_contract(fi, subj, decl)
+        if r4.require(bool(refused), fi, "guard %s/%s" % (subj, decl), "%s no longer refuses a %s violating %s with ValueError" % (qual, subj, decl)):
+            if bad:
+                nid, alt = bad[0]
+                r4.fail_fn(fi, F.cfg.nodes[nid].stmt, "guard %s precedes the work" % subj,
+                           "%s: the %s check no longer precedes the cipher operations on every path (or no longer examines the caller's %s): %s is reached under [%s]; "
+                           "the only escape allowed is the LENGTH_UNLIMITED marker" % (
+                               qual, subj, subj, "a result" if F.cfg.nodes[nid].kind == "return" else "the end of the function", describe_alt(alt)))
+            else:
+                r4.ok({"function": qual, "subject": subj, "declared": decl})
     kg = repo.func(AES, "AESxCBC.KeyGen")
     r4.require(unparse(kg.node.body[-1]) == "return os.urandom(self.key_length)", kg, "KeyGen length", "AESxCBC.KeyGen no longer returns os.urandom(self.key_length)")
     ab = repo.func("toolkit/symmetric_encryption/abstraction.py", "AbstractSymmetricEncryption.__init__")
